@@ -2749,12 +2749,39 @@ impl<'a> CodeGenerator<'a> {
                     },
                 );
 
+                // Lists longer than every tested length fall through to the tail case with the
+                // most elements: it is the one holding every row that can still match.
+                let tail_case_len = |case: &CaseTest| match case {
+                    CaseTest::ListWithTail(i) => *i,
+                    _ => unreachable!(),
+                };
+
                 let last_pattern = if tail_cases.is_empty() {
                     *default.as_ref().unwrap().clone()
                 } else {
-                    let tree = tail_cases.last().unwrap();
+                    let tree = tail_cases
+                        .iter()
+                        .max_by_key(|(case, _)| tail_case_len(case))
+                        .unwrap();
 
                     tree.1.clone()
+                };
+
+                // A list of exactly `index` elements is decided by the case for that length if
+                // there is one, otherwise by the longest tail case that does not need more
+                // elements.
+                let case_for_length = |index: usize| {
+                    cases
+                        .iter()
+                        .find(|x| matches!(x.0, CaseTest::List(i) if i == index))
+                        .or_else(|| {
+                            tail_cases
+                                .iter()
+                                .filter(|(case, _)| tail_case_len(case) <= index)
+                                .max_by_key(|(case, _)| tail_case_len(case))
+                        })
+                        .cloned()
+                        .unwrap_or_else(|| (CaseTest::Wild, *default.as_ref().unwrap().clone()))
                 };
 
                 let builtins_for_pattern = builtins_path.merge(Builtins::new_from_list_case(
@@ -2776,18 +2803,7 @@ impl<'a> CodeGenerator<'a> {
                     (builtins_for_pattern, last_pattern),
                     |(mut builtins_for_pattern, acc), list_item| match list_item {
                         itertools::Position::First(index) | itertools::Position::Only(index) => {
-                            let (_, tree) = cases
-                                .iter()
-                                .chain(tail_cases.iter())
-                                .find(|x| match x.0 {
-                                    CaseTest::List(i) => i == index,
-                                    CaseTest::ListWithTail(i) => i <= index,
-                                    _ => unreachable!(),
-                                })
-                                .cloned()
-                                .unwrap_or_else(|| {
-                                    (CaseTest::Wild, *default.as_ref().unwrap().clone())
-                                });
+                            let (_, tree) = case_for_length(index);
 
                             let tail_name = if builtins_for_pattern.is_empty() {
                                 subject_name.clone()
@@ -2818,18 +2834,7 @@ impl<'a> CodeGenerator<'a> {
                         }
 
                         itertools::Position::Middle(index) | itertools::Position::Last(index) => {
-                            let (_, tree) = cases
-                                .iter()
-                                .chain(tail_cases.iter())
-                                .find(|x| match x.0 {
-                                    CaseTest::List(i) => i == index,
-                                    CaseTest::ListWithTail(i) => i <= index,
-                                    _ => unreachable!(),
-                                })
-                                .cloned()
-                                .unwrap_or_else(|| {
-                                    (CaseTest::Wild, *default.as_ref().unwrap().clone())
-                                });
+                            let (_, tree) = case_for_length(index);
 
                             let tail_name = if builtins_for_pattern.is_empty() {
                                 subject_name.clone()
